@@ -18,6 +18,10 @@ import (
 type MitigationParams struct {
 	Replicas   int  `json:"replicas"`
 	Unassigned bool `json:"unassigned"` // the last replica row is -1 (no server)
+	Hole       bool `json:"hole"`       // the FIRST replica row is -1 and the second is assigned: chain [a, -1, b] (needs replicas = 2)
+	// Rollback: the session resumes from a stored position 2 of a lost branch and the server answers with a
+	// rollback to 1; on the new branch seq 2 does not exist, the first event past the catch-up point is seq 3
+	Rollback   bool `json:"rollback"`
 	ConfigBump bool `json:"config_bump"`
 	CloseAt    bool `json:"close_at"` // close the stream while an event waits at the gate
 	Stall      bool `json:"stall"`    // the DCP thread is descheduled for two observe intervals at every one of its scheduling points
@@ -70,6 +74,8 @@ func init() {
 				{Scenario: "c07_gate", Params: mustJSON(MitigationParams{Replicas: 0}), Bound: b, Shards: 2},
 				{Scenario: "c07_gate", Params: mustJSON(MitigationParams{Replicas: 1}), Bound: b, Shards: 8},
 				{Scenario: "c07_gate", Params: mustJSON(MitigationParams{Replicas: 1, Unassigned: true}), Bound: b, Shards: 2},
+				{Scenario: "c07_gate", Params: mustJSON(MitigationParams{Replicas: 2, Hole: true}), Bound: b, Shards: 8, Note: "a chain with a hole: [active, unassigned, replica] - the copy behind the unassigned slot is a listed copy"},
+				{Scenario: "c07_gate", Params: mustJSON(MitigationParams{Replicas: 1, Rollback: true}), Bound: b, Shards: 8, Note: "the session starts with a server-requested rollback: the first event past the catch-up point waits at the gate like any other"},
 				{Scenario: "c07_gate", Params: mustJSON(MitigationParams{Replicas: 1, ConfigBump: true}), Bound: b, Shards: 8},
 				{Scenario: "c07_gate", Params: mustJSON(MitigationParams{Replicas: 1, CloseAt: true}), Bound: b, Shards: 8},
 				{Scenario: "c07_gate", Params: mustJSON(MitigationParams{Replicas: 1, EpochAssign: true}), Bound: b - 1, Shards: 8, Note: "a cluster map with a higher epoch but a lower revision id assigns the replica: it counts from then on"},
@@ -190,6 +196,14 @@ func gateMain(p MitigationParams) {
 	if p.Unassigned || p.EpochAssign {
 		lateNode = c.VbMap[0][p.Replicas]
 		c.VbMap[0][p.Replicas] = -1
+	}
+	if p.Hole {
+		c.VbMap[0][1] = -1
+	}
+	if p.Rollback {
+		seedCheckpoint(c, srcBucket, "g", 0, 777, 2, 1, 3)
+		c.Vb[0].High = 3 // the lost branch
+		c.Vb[0].Opens = []gocbcore.SimOpen{{Kind: "rollback", Rollback: 1, SwapLog: []gocbcore.SimPacket{marker(1, 3), symbolPacket("M", 1)}}}
 	}
 	menu := feedMenu()
 	var picks []int
@@ -319,7 +333,9 @@ func gateMain(p MitigationParams) {
 		k := vrt.Choose(90, true, "stall-at-point")
 		vrt.InjectAtomic("sim:dcp:events0", k, func() { vrt.Sleep(2 * interval) })
 	}
-	if p.TransientEnd || p.EpochAssign {
+	if p.Rollback {
+		c.Append(0, symbolPacket("M", 3))
+	} else if p.TransientEnd || p.EpochAssign {
 		c.Append(0, marker(1, 3), symbolPacket("M", 1), symbolPacket("M", 2))
 	} else {
 		c.Append(0, marker(1, 3), symbolPacket("M", 1), symbolPacket("M", 2), symbolPacket("M", 3))
@@ -391,6 +407,9 @@ func gateMain(p MitigationParams) {
 		delivered[d.Seq] = true
 	}
 	for s := uint64(1); s <= 3; s++ {
+		if p.Rollback && s < 3 {
+			continue // at or below the rollback point / not on the new branch
+		}
 		if s <= uint64(lastThreshold) && !delivered[s] {
 			vrt.Failf("%s: event seq %d is covered by the threshold %d but was never delivered (lost wake-up)", desc, s, lastThreshold)
 		}
